@@ -139,7 +139,23 @@ impl Property for C13 {
             v.push(Case::Stream(StreamCase { items: vec![rec.clone(), t.clone(), rec.clone()], suffix: vec![], as_list: true, label: "tiny-item".into() }));
             v.into_iter()
         });
-        Box::new(it.chain(tiny_cases))
+        // other REPRESENTATIONS of a valid record handed to the binary decoder: every text character below 0x80
+        // is a complete one-byte RLP item, so the text form is "an item followed by other bytes"
+        let rec2 = {
+            let e = det_entropy("c13/tiny", 0, 1400);
+            gen_item_bytes(&mut Choices::new(&e), true)
+        };
+        let b64 = crate::refmodel::b64::encode(&rec2);
+        let texts: Vec<String> = vec![format!("enr:{b64}"), b64.clone(), crate::hexser::hex(&rec2), format!("0x{}", crate::hexser::hex(&rec2)), format!("\"enr:{b64}\"")];
+        let repr_cases = texts.into_iter().flat_map(move |t| {
+            let b = t.into_bytes();
+            vec![
+                Case::Stream(StreamCase { items: vec![vec![b[0]]], suffix: b[1..].to_vec(), as_list: false, label: "other-representation".into() }),
+                Case::Stream(StreamCase { items: vec![rec2.clone(), vec![b[0]]], suffix: b[1..].to_vec(), as_list: false, label: "other-representation".into() }),
+            ]
+            .into_iter()
+        });
+        Box::new(it.chain(tiny_cases).chain(repr_cases))
     }
     fn fuzz_plans(&self) -> Vec<(&'static str, u64)> {
         vec![("wire_raw", 30000), ("wire_struct", 10000)]
